@@ -59,6 +59,14 @@ func main() {
 		parserGen = "#check (vextract_translation_failed : " + leanString(perr.Error()) + ")\n"
 	}
 	outputs["ParserGen.lean"] = parserGen
+	// the list translation (listgen.go) fails loudly in the same way
+	listGen, lerr := genListOps(pkg)
+	if lerr != nil {
+		listGen = "#check (vextract_translation_failed : " + leanString(lerr.Error()) + ")\n"
+		fmt.Fprintln(os.Stderr, "vextract: list translation failed:", lerr)
+		defer os.Exit(1)
+	}
+	outputs["ListGen.lean"] = listGen
 	// the translation of the object operations fails loudly in the same way
 	objectGen, oerr := genObjectOps(pkg)
 	if oerr != nil {
